@@ -499,10 +499,16 @@ class SymEval:
             if head is not None:
                 key = ".".join([head] + parts)
                 old = self.env.get(key)
+                try:
+                    idx_e = self.expr(t.slice)
+                except Exception:
+                    idx_e = S.unknown("index")
                 if old is not None and old.op == "call" and old.args[0] == "stored":
+                    # stored(base, i1, v1, i2, v2, ...): the element stores seen so far, in order
+                    self.env[key] = S.call("stored", *(list(old.args[1:]) + [idx_e, v]))
                     return
                 if key in self.env or head in self.env:
-                    self.env[key] = S.call("stored", self.env.get(key, S.sym(key)))
+                    self.env[key] = S.call("stored", self.env.get(key, S.sym(key)), idx_e, v)
         elif isinstance(t, ast.Starred):
             self.assign_target(t.value, S.unknown("starred"))
 
@@ -548,7 +554,12 @@ class SymEval:
                 if head is not None:
                     key = ".".join([head] + parts)
                     if key in self.env:
-                        self.env[key] = S.call("mutated", self.env[key], self.expr(st.value))
+                        cur = self.env[key]
+                        if f.attr == "append" and len(st.value.args) == 1 and cur.op == "call" and cur.args[0] == "list":
+                            # a list built element by element stays a literal list (elements appended in a loop: see _loop)
+                            self.env[key] = S.call("list", *(list(cur.args[1:]) + [self.expr(st.value.args[0])]))
+                        else:
+                            self.env[key] = S.call("mutated", cur, self.expr(st.value))
 
     def s_Return(self, st):
         v = self.expr(st.value) if st.value is not None else S.NONE
@@ -689,8 +700,15 @@ class SymEval:
             if not t.is_const:
                 self.path = self.path + [t]
         self.block(st.body)
+        grown = {}
+        for k, v0 in env0.items():
+            v1 = self.env.get(k)
+            if v1 is not None and v0.op == "call" and v0.args[0] == "list" and v1.op == "call" and v1.args[0] == "list" \
+                    and len(v1.args) > len(v0.args) and list(v1.args[:len(v0.args)]) == list(v0.args):
+                grown[k] = S.call("list", *(list(v0.args[1:]) + [S.call("repeat", x) for x in v1.args[len(v0.args):]]))
         # after the loop: everything assigned in the body is unknown
         env_after = dict(env0)
+        env_after.update(grown)
         for k in assigned:
             env_after[k] = S.unknown("after-loop:" + k)
         for k in self.env:
@@ -730,8 +748,23 @@ class SymEval:
 
         if it.op == "call" and it.args[0] in ("tuple", "list") and 1 <= len(it.args) - 1 <= 16 and not st.orelse \
                 and not any(isinstance(x, (ast.Break, ast.Continue)) for b in st.body for x in ast.walk(b)):
-            # a loop over a literal sequence: unrolled, element by element
+            # a loop over a literal sequence: unrolled, element by element; an element `repeat(e)` stands for any number of
+            # elements of the form e (appended by an earlier loop): the body runs once on e and what it appends is repeated
+            assigned = self._assigned_in(st.body)
             for elem in it.args[1:]:
+                if elem.op == "call" and elem.args[0] == "repeat":
+                    before = {k: v for k, v in self.env.items() if v.op == "call" and v.args[0] == "list"}
+                    saved = {k: self.env.get(k) for k in assigned}
+                    self.assign_target(st.target, elem.args[1])
+                    self.block(st.body)
+                    for k, v0 in before.items():
+                        v1 = self.env.get(k)
+                        if v1 is not None and v1.op == "call" and v1.args[0] == "list" and len(v1.args) > len(v0.args):
+                            self.env[k] = S.call("list", *(list(v0.args[1:]) + [S.call("repeat", x) for x in v1.args[len(v0.args):]]))
+                    for k in assigned:
+                        if not (self.env.get(k) is not None and self.env[k].op == "call" and self.env[k].args[0] == "list"):
+                            self.env[k] = S.unknown("after-loop:" + k)
+                    continue
                 self.assign_target(st.target, elem)
                 if self.block(st.body):
                     return True
